@@ -48,11 +48,13 @@ func judgeItems(prop string, sc *BatchSc, x *batchExec, br batchRun) (fp, msg st
 			}
 			continue
 		}
+		if len(execs) == 0 && sc.item(i).PreErr {
+			// an item that prep already marked as failed may be handed straight to its slot: what
+			// "processing" such an item means is not in any property's quantifier
+			continue
+		}
 		totalWant += m.Attempts
 		totalGot += len(execs)
-		if len(execs) == 0 && prop != "C07" && sc.item(i).PreErr {
-			continue // whether a pre-made error item is executed at all is C07's question only
-		}
 		if len(execs) == 0 {
 			if sc.stop() {
 				continue // skipped by stop-on-error: C09's business
@@ -182,7 +184,7 @@ func judgeC07(sc *BatchSc, x *batchExec, br batchRun, fail string) Verdict {
 				hasResErr = true
 			}
 		}
-		if !hasResErr && sc.WaitMs == 0 {
+		if !hasResErr && sc.WaitMs == 0 && !(sc.item(i).PreErr && len(per[i]) == 0) {
 			ex, fb, _ := singleNodeTwin(sc, i)
 			gotEx, gotFb := 0, 0
 			for _, e := range per[i] {
